@@ -253,7 +253,7 @@ def c01_families(rng, tier):
             categories=cats, pinned=True),
         fam("perm5_projection", [line("perm5", rand_hand(rng, 5)) for _ in range(300)] + structured_fives(rng, "perm5"),
             "the projection the slot-order sweep uses, on model and implementation", pinned=True),
-        fam_sweep("perm5_all_orders", "perm5", 5, 0, "1 1", "C01_value (the ordinal depends only on the ranks and the flush bit)",
+        fam_sweep("perm5_all_orders", "perm5", 5, 0, "1 1", "C01_projection",
                   "ALL 2,598,960 five-card hands x ALL 120 slot orders x the six entry points: one in-range value per hand "
                   "(implementation-only: the model's line is constant by the theorem)", profiles=["release"] if tier == "quick" else ["release", "chk"]),
     ]
@@ -330,11 +330,11 @@ def c05_families(rng, tier):
         fams.append(fam("slots%d_card_or_blank" % k, lines,
                         "seeded %d-slot arrays over {52 cards, blank} in random order with repetition (blank density 0/10/40/90%%), "
                         "plus the all-blank default hand" % k, categories=cats, profiles=["release", "chk"], pinned=True))
-    fams += sweeps(rng, tier, lambda k: "rankp %d" % k, "ok ok ok ok ok", "C05_rank_total",
+    fams += sweeps(rng, tier, lambda k: "rankp %d" % k, "ok ok ok ok ok", "C05_projection",
                    "every ranking entry point returns normally", alphabet="deckblank", name="rankp_multisets",
                    quick_strides={6: (4, 16, 16), 7: (128, 512, 512)}, thorough_stride={7: 4})
     st = 32 if tier == "quick" else 1
-    fams.append(fam_sweep("five_ordered_arrays", "rankp 5", 5, 0, "ok ok ok ok ok ok", "C05_rank_total + C05_blank_five",
+    fams.append(fam_sweep("five_ordered_arrays", "rankp 5", 5, 0, "ok ok ok ok ok ok", "C05_projection + C05_blank_five",
                           "ALL 53^5 = 418,195,493 ORDERED five-slot arrays over {52 cards, blank}%s: every entry point returns normally; an "
                           "array holding a blank gets value 0 / Invalid (that constant is read off the model on the all-blank hand)"
                           % ("" if st == 1 else " (1 of every %d, seeded offset)" % st), stride=st, offset=rng.below(st),
@@ -472,7 +472,7 @@ def c02_families(rng, tier):
     lines += [l.replace("x ", "best 7 ", 1) for l in made_hands(rng, 7, 600, "x")] + [l.replace("x ", "best 6 ", 1) for l in made_hands(rng, 6, 600, "x")]
     fams.append(fam("best_projection", lines, "the projection the sweeps use, on model and implementation: does every entry point "
                     "return the lowest value among the five-slot sub-hands ranked on their own", pinned=True))
-    fams += sweeps(rng, tier, lambda k: "best %d" % k, "1 1 1 1 1", "C02_value + C02_value5_is_rank",
+    fams += sweeps(rng, tier, lambda k: "best %d" % k, "1 1 1 1 1", "C02_projection",
                    "every entry point returns the lowest five-card sub-hand value", name="best")
     return fams
 
@@ -484,7 +484,7 @@ def c03_families(rng, tier):
     # re-ranks to the reported value (the property lets the code report ANY such witness, so the cards are not compared)
     fams = six_seven_families(rng, tier, "wit", "is the reported hand a sorted witness re-ranking to the reported value")
     fams.append(fam("fives_identity", sh, "five-card hands: the reported hand is the input", categories=cats, pinned=True))
-    fams += sweeps(rng, tier, lambda k: "wit %d" % k, "1 1 1 1", "C03_witness",
+    fams += sweeps(rng, tier, lambda k: "wit %d" % k, "1 1 1 1", "C03_projection",
                    "the reported hand is drawn from the input, duplicate-free, descending and re-ranks to the reported value",
                    name="wit")
     return fams
@@ -501,7 +501,7 @@ def c09_families(rng, tier):
     fams = [fam("seven_six_five_chains", lines,
                 "seeded, made and row-targeted sevens: v7 <= all seven six-card values, v7 = their minimum, each v6 <= its six "
                 "five-card values and equals their minimum (projection: booleans only; 1 + 7 + 42 rankings per case)", pinned=True)]
-    fams += sweeps(rng, tier, lambda k: "chain7", "1 1 1 1", "C09_chain + C09_min_of_sub",
+    fams += sweeps(rng, tier, lambda k: "chain7", "1 1 1 1", "C09_projection",
                    "seven <= each six-subset <= each five-subset and both minima attained", sizes=(7,), name="chain")
     return fams
 
@@ -592,10 +592,10 @@ def c04_families(rng, tier):
                     "0xFFFFFFFF sentinel of Six/Seven are left out)", profiles=["release"], beyond=True))
     for k in (5, 6, 7):
         tail = " 1" if k == 5 else ""
-        fams += sweeps(rng, tier, lambda k_: "vrank %d" % k_, "1 0 1 1" + tail, "C04_is_valid + C04_validated + C04_zero_iff",
+        fams += sweeps(rng, tier, lambda k_: "vrank %d" % k_, "1 0 1 1" + tail, "C04_projection_hand",
                        "distinct real cards: reported valid, validated value non-zero, carried by hand_rank_validated, equal to the unvalidated value",
                        sizes=(k,), name="vrank_valid", quick_strides={5: (1, 4, 4), 6: (4, 16, 16), 7: (16, 64, 64)})
-        fams += sweeps(rng, tier, lambda k_: "vrank %d" % k_, "0 1 1" + tail, "C04_is_valid + C04_zero_iff",
+        fams += sweeps(rng, tier, lambda k_: "vrank %d" % k_, "0 1 1" + tail, "C04_projection + C04_is_valid",
                        "a blank or a repeated card among the slots: reported not valid, validated value 0",
                        sizes=(k,), name="vrank_invalid", alphabet="deckblank_invalid", thorough_stride={7: 8},
                        quick_strides={5: (1, 4, 4), 6: (4, 16, 16), 7: (32, 128, 128)})
@@ -627,7 +627,7 @@ def c06_families(rng, tier):
             categories=cats, pinned=True),
         fam("hrself_projection", [line("hrself %d" % (5 + j % 3), rand_hand(rng, 5 + j % 3)) for j in range(900)],
             "the projection the sweeps use, on model and implementation", pinned=True),
-    ] + sweeps(rng, tier, lambda k: "hrself %d" % k, "1 1 1", "C06_cards + C06_cards_six_seven + C06_consistent",
+    ] + sweeps(rng, tier, lambda k: "hrself %d" % k, "1 1 1", "C06_projection",
                "the reported rank record (plain and validated) is the conversion of the hand's value, is not Invalid and passes its own "
                "consistency test", sizes=(5, 6, 7), name="hrself", quick_strides={5: (1, 4, 4), 6: (4, 16, 16), 7: (16, 64, 64)})
 
@@ -691,7 +691,7 @@ def c07_families(rng, tier):
             "a <= b and b <= c imply a <= c; cmp(a,b) = Equal implies cmp(a,c) = cmp(b,c)", pinned=True),
         fam("hrkey_projection", [l.replace("hrcmpp", "hrkey", 1) for l in pairs[:2000] + rnd[:2000]],
             "the projection the all-pairs sweep uses, on model and implementation", pinned=True),
-        fam_sweep("all_value_pairs", "hrkey", 2, 0, "1 1 1", "C07_order + C07_eq + C07_operators + C07_antisymmetric",
+        fam_sweep("all_value_pairs", "hrkey", 2, 0, "1 1 1", "C07_projection",
                   "ALL 65,536 x 65,536 = 4,294,967,296 ordered pairs of converted values, both build profiles: cmp is what the property fixes "
                   "(lower valid value Greater, invalid below valid, two invalid ranks Equal iff same value and antisymmetric); ==, !=, "
                   "partial_cmp, <, <=, >, >= agree with cmp (each value is converted once; a pair whose three bits are not all true is "
@@ -722,12 +722,12 @@ def c08_families(rng, tier):
     val += [l.replace("x", "shiftinv", 1) for l in row_targeted(rng, 6, "x 6") + row_targeted(rng, 7, "x 7")]
     rel = [line("relabel %d" % (5 + j % 3), rand_hand(rng, 5 + j % 3)) for j in range(600)]
     rel += [l.replace("x ", "relabel 6 ", 1) for l in made_hands(rng, 6, 150, "x")] + [l.replace("x ", "relabel 7 ", 1) for l in made_hands(rng, 7, 150, "x")]
-    return sweeps(rng, tier, lambda k: "relabel %d" % k, "1 1", "C08_relabel_invariant + C10_create + C10_accessors + C04_validated",
+    return sweeps(rng, tier, lambda k: "relabel %d" % k, "1 1", "C08_projection_relabel",
                   "value and validated value identical under all 24 relabellings of the four suits (cards rebuilt through the accessors "
                   "and create)", sizes=(5, 6, 7), name="relabel", quick_strides={5: (1, 4, 4), 6: (16, 64, 64), 7: (128, 512, 512)},
                   thorough_stride={7: 4}) + [
         fam("relabel_projection", rel, "the projection the relabelling sweeps use, on model and implementation", pinned=True)] + \
-        sweeps(rng, tier, lambda k: "shiftinv %d" % k, "1 1 1 1 1 1 1", "C08_shift_invariant + C08_cycle + C04_validated",
+        sweeps(rng, tier, lambda k: "shiftinv %d" % k, "1 1 1 1 1 1 1", "C08_projection",
                   "value and validated value unchanged by one, two and three shifts; four shifts restore the hand",
                   sizes=(5, 6, 7), name="shiftinv", quick_strides={5: (1, 2, 2), 6: (2, 8, 8), 7: (16, 64, 64)}) + [
         fam("shift_card", ["shift %d" % w for w in DECK + [0]], "shift_suit on all 52 cards and blank", exhaustive=True, pinned=True),
@@ -800,7 +800,7 @@ def c11_families(rng, tier):
         fam("sort_seeded", rnd, "seeded hands of arbitrary u32 words / distinct cards / cards and blanks with repeats", categories=cats, pinned=True),
         fam("sortp_projection", [l.replace("sort ", "sortp ", 1) for l in rnd[:3000]], "the projection the sweeps use, on model and implementation "
             "(non-increasing, same multiset, in-place form agrees, idempotent)", pinned=True),
-    ] + sweeps(rng, tier, lambda k: "sortp %d" % k, "1 1 1 1", "C11_sort + C11_sort_slots",
+    ] + sweeps(rng, tier, lambda k: "sortp %d" % k, "1 1 1 1", "C11_projection",
                "sort() is non-increasing, a rearrangement of the input, equal to sort_in_place() and idempotent", sizes=(2, 3, 4, 5, 6, 7),
                alphabet="deckblank", name="sortp", thorough_stride={7: 8},
                quick_strides={2: (1, 1, 1), 3: (1, 1, 1), 4: (1, 1, 1), 5: (1, 4, 4), 6: (4, 16, 16), 7: (32, 128, 128)})
@@ -1020,7 +1020,7 @@ def c15_families(rng, tier):
         fam("from_text", texts, "BinaryCard::from_index on token texts", pinned=True),
         fam("bcsetp_projection", [l.replace("bcfrom ", "bcsetp ", 1) for l in hands[:3000]], "the projection the sweeps use, on model and "
             "implementation", pinned=True),
-    ] + sweeps(rng, tier, lambda k: "bcsetp %d" % k, "1 1 1 1 1", "C15_from_hand + C15_count + C15_has_card + C15_valid + C15_peel_all",
+    ] + sweeps(rng, tier, lambda k: "bcsetp %d" % k, "1 1 1 1 1", "C15_projection",
                "the set built from the hand has exactly the distinct real cards among the slots (count, membership, no overflow bit, valid iff "
                "non-empty) and peeling lists them in deck order, then blank", sizes=(2, 3, 4, 5, 6, 7), alphabet="deckblank", name="bcsetp",
                thorough_stride={7: 8},
